@@ -87,7 +87,7 @@ def execute(case):
         return set(e["kw"].get("pid") for e in h.hook_log
                    if e["hook"] == 'after_spawn' and (
                        e["outcome"] in ('false', 'none', 'zero') or
-                       (e["outcome"] == 'raise' and
+                       (e["outcome"] in ('raise', 'raise-bare') and
                         not ignore_flag.get(e["watcher"]))))
 
     orphaned = set()     # pids of watchers removed with nostop: deliberately
